@@ -174,8 +174,14 @@ inductive Op where
   | remap (g : Nat) (dest : Dim)
   /-- `get_dual`; `closed` = every node of the source has at least three faces, as on a closed mesh
       without hanging nodes (then the dual has one face per node and the counts are the swapped
-      ones); otherwise `construct_dual` skips nodes and `c` are the counts of the dual that was built -/
+      ones); otherwise `construct_dual` skips nodes and `c` are the counts of the dual that was built.
+      This is the code AS IT STOOD for every centring, and still is for edge-centred data. -/
   | getDual (closed : Bool) (c : Counts)
+  /-- `get_dual` REPAIRED (fixes/C10-get-dual-drops-nodes-without-dual-face.patch) for face- and
+      node-centred data: node data are restricted to the nodes that get a face in the dual (≥ 3 faces, the
+      mask `construct_dual` uses), so the new `n_face` dimension has the dual's face count; face data
+      move to the dual's nodes, which ARE the source's faces.  `c.edge`, `c.face`: observed. -/
+  | getDualR (c : Counts)
 deriving DecidableEq, Repr
 
 /-- The public ways of copying a `DataArray`.  `copy(deep=True, data=None)` has `deep=True` as its
@@ -236,6 +242,7 @@ inductive UxCall where
   /-- `cross_section.constant_latitude(lat)` (= `isel(n_face=faces)`) -/
   | crossSectionLat (c : Counts)
   | getDual (closed : Bool) (c : Counts)
+  | getDualR (c : Counts)
 deriving DecidableEq, Repr
 
 /-- the model operation a public call is: the result's element dimension is NAMED after the kind the
@@ -253,6 +260,7 @@ def UxCall.op : UxCall → Op
   | .subsetBox _ c => .gridIsel c
   | .crossSectionLat c => .gridIsel c
   | .getDual closed c => .getDual closed c
+  | .getDualR c => .getDualR c
 
 /-- the class of an xarray operation (none for copies and for uxarray's own operations) -/
 def Op.kind : Op → Option XKind
@@ -373,6 +381,17 @@ def step (T : Table) (s : State) (op : Op) : Option State :=
           some { heap := s.heap ++ [⟨c', freshStore s.heap⟩],
                  arr := ⟨true, some s.heap.length, s.arr.dims.map (fun p => (p.1.swap, p.2))⟩ }
       | none => none
+  | .getDualR c =>
+      match cur s, centred s.arr.dims with
+      | some (_, r), some d =>
+          if d == .edge then none     -- edge data have no counterpart on the dual: the as-is operation applies
+          else
+            -- the dual's nodes are the source's faces; its edge and face counts are what was built
+            let c' : Counts := ⟨r.counts.face, c.edge, c.face⟩
+            some { heap := s.heap ++ [⟨c', freshStore s.heap⟩],
+                   arr := ⟨true, some s.heap.length,
+                           s.arr.dims.map (fun p => if p.1 = .node then (.face, c.face) else (p.1.swap, p.2))⟩ }
+      | _, _ => none
   | op => stepX T s op
 
 /-- a program -/
@@ -386,10 +405,16 @@ def run (T : Table) : State → List Op → Option State
 /-! ## scope of the invariant theorems (used by `Props/C10.lean` and reported by the driver) -/
 
 /-- operations of the property's quantifier that the invariant can be expected to survive:
-    positional indexing that SHORTENS a grid dimension keeps the un-sliced grid (xarray knows
-    nothing about grids), and the dual of a mesh with nodes of fewer than three faces (every
-    partial mesh) does not have one face per node — both are
-    recorded findings, see `asis_positional_slice_stale_grid`, `asis_get_dual_partial`. -/
+    positional indexing that SHORTENS a grid dimension through xarray's own path keeps the un-sliced
+    grid (xarray knows nothing about grids), and the AS-IS dual of a mesh with nodes of fewer than
+    three faces (every partial mesh) does not have one face per node — see
+    `asis_positional_slice_stale_grid`, `asis_get_dual_partial`.  Both are repaired where a repair
+    exists: positional selection of FACES (`uxda[..., idx]`, `isel(indexers=…)`) is routed through
+    `Grid.isel` and is then the operation `gridIsel` (fixes/C10-positional-face-indexing-slices-grid.patch);
+    `get_dual` of node / face data is `getDualR`.  What remains out of scope: positional indexing of
+    n_node / n_edge (an exact sub-grid does not exist: selection of nodes / edges is inclusive),
+    `sel` / `head` / `tail` / `thin` (they run inside xarray on a temporary Dataset), and the dual of
+    edge-centred data on such meshes. -/
 def Scoped : Op → Bool
   | .index d (.len _) => !d.isGrid
   | .getDual closed _ => closed
@@ -417,7 +442,7 @@ def attachedB (s : State) : Bool :=
 /-- operations that must keep THE SAME grid object -/
 def Op.sameGrid : Op → Bool
   | .copy deep _ => !deep
-  | .gridIsel _ | .remap _ _ | .getDual _ _ => false
+  | .gridIsel _ | .remap _ _ | .getDual _ _ | .getDualR _ => false
   | _ => true
 
 /-- deep copy: a new grid object, equal counts, a store no earlier grid uses, old grids untouched -/
